@@ -223,6 +223,31 @@ count_dirty_bkt(MCACHE *mp)
 
 static uint8 *g_hold[NPG + 1]; /* pages the application currently holds pinned */
 
+static void
+check_page(MCACHE *mp, int32 q)
+{
+    /* a pinned page is never evicted or reused */
+    if (g_hold[q] != NULL) {
+        H4V_CHECK(BKT_OF(g_hold[q])->pgno == q && (BKT_OF(g_hold[q])->flags & MCACHE_PINNED) != 0,
+                  "a pinned page is never evicted");
+        H4V_CHECK(g_hold[q][0] == g_model[q][0] && g_hold[q][PGSZ - 1] == g_model[q][PGSZ - 1],
+                  "a pinned page keeps its data");
+    }
+    /* page numbers in the queues and hash chains stay unique */
+    H4V_CHECK(count_bkt(mp, q) <= 1, "at most one bucket per page number in the lru queue");
+    H4V_CHECK(count_hash_bkt(mp, q) == count_bkt(mp, q), "hash chain and lru queue agree");
+    H4V_CHECK(count_lelem(mp, q) == 1, "exactly one list element per page number");
+}
+static void
+check_all_pages(MCACHE *mp)
+{
+    check_page(mp, 1);
+    if (g_npages >= 2)
+        check_page(mp, 2);
+    if (g_npages >= 3)
+        check_page(mp, 3);
+}
+
 /* one application step on page p: get it if not held; then keep it, put it back clean, or modify
    it and put it back dirty */
 static void
@@ -266,17 +291,8 @@ app_step_on(MCACHE *mp, int32 p)
         H4V_CHECK((BKT_OF(g_hold[p])->flags & MCACHE_DIRTY) != 0, "mcache_put(DIRTY) sets the dirty flag");
         g_hold[p] = NULL;
     }
-    /* ghost page: a pinned page is never evicted or reused */
-    if (g_hold[g_q] != NULL) {
-        H4V_CHECK(BKT_OF(g_hold[g_q])->pgno == g_q && (BKT_OF(g_hold[g_q])->flags & MCACHE_PINNED) != 0,
-                  "a pinned page is never evicted");
-        H4V_CHECK(g_hold[g_q][0] == g_model[g_q][0] && g_hold[g_q][PGSZ - 1] == g_model[g_q][PGSZ - 1],
-                  "a pinned page keeps its data");
-    }
-    /* page numbers in the queues and hash chains stay unique */
-    H4V_CHECK(count_bkt(mp, g_q) <= 1, "at most one bucket per page number in the lru queue");
-    H4V_CHECK(count_hash_bkt(mp, g_q) == count_bkt(mp, g_q), "hash chain and lru queue agree");
-    H4V_CHECK(count_lelem(mp, g_q) == 1, "exactly one list element per page number");
+    /* every page (constant page numbers: the run explores one concrete schedule per path) */
+    check_all_pages(mp);
 }
 
 /* the page number is a constant in each branch (hash keys become constants for cbmc) */
@@ -304,8 +320,8 @@ h_mcache_protocol(void)
         g_hold[p] = NULL;
     for (int s = 0; s < NSTEPS; s++)
         app_step(mp);
-    H4V_COVER(g_out_cnt[g_q] > 0, "a dirty page was evicted and written back");
-    H4V_COVER(g_in_cnt[g_q] > 1, "a page was read in twice");
+    H4V_COVER(g_out_cnt[1] > 0, "a dirty page was evicted and written back");
+    H4V_COVER(g_in_cnt[1] > 1, "a page was read in twice");
     H4V_COVER(mp->curcache > maxc, "cache grew because every page was pinned");
     /* release what is still held, then sync */
     for (int p = 1; p <= NPG; p++)
@@ -313,16 +329,25 @@ h_mcache_protocol(void)
             mcache_put(mp, g_hold[p], 0);
             g_hold[p] = NULL;
         }
-    int was_dirty = g_dirty[g_q];
-    int out_before = g_out_cnt[g_q];
+    int was_dirty[NPG + 1], out_before[NPG + 1], any_dirty = 0;
+    for (int p = 1; p <= NPG; p++) {
+        was_dirty[p]  = g_dirty[p];
+        out_before[p] = g_out_cnt[p];
+        any_dirty |= (p <= g_npages && g_dirty[p]);
+    }
     int r = mcache_sync(mp);
     H4V_CHECK(r == RET_SUCCESS, "mcache_sync succeeds when pgout succeeds");
     H4V_CHECK(count_dirty_bkt(mp) == 0, "mcache_sync leaves no dirty page");
-    H4V_CHECK(g_dirty[g_q] == 0, "every page put dirty has been written back");
-    H4V_CHECK(g_out_cnt[g_q] == out_before + (was_dirty ? 1 : 0), "mcache_sync writes each dirty page exactly once, clean pages not at all");
-    H4V_CHECK(g_disk[g_q][0] == g_model[g_q][0] && g_disk[g_q][PGSZ - 1] == g_model[g_q][PGSZ - 1],
-              "after sync the disk holds the data last stored");
-    H4V_COVER(was_dirty, "sync wrote a page");
+    for (int p = 1; p <= NPG; p++)
+        if (p <= g_npages) {
+            H4V_CHECK(g_dirty[p] == 0, "every page put dirty has been written back");
+            H4V_CHECK(g_out_cnt[p] == out_before[p] + (was_dirty[p] ? 1 : 0),
+                      "mcache_sync writes each dirty page exactly once, clean pages not at all");
+            H4V_CHECK(g_disk[p][0] == g_model[p][0] && g_disk[p][PGSZ - 1] == g_model[p][PGSZ - 1],
+                      "after sync the disk holds the data last stored");
+        }
+    check_all_pages(mp);
+    H4V_COVER(any_dirty, "sync wrote a page");
     H4V_CANARY("mcache protocol end");
 }
 
@@ -359,6 +384,7 @@ h_mcache_evict_fail(void)
     uint8 *pg2 = mcache_get(mp, 2, 0);
     H4V_CHECK(pg2 == NULL, "mcache_get fails when the dirty page it wants to evict cannot be written");
     H4V_CHECK(count_bkt(mp, 1) == 1, "the unwritten dirty page is still cached");
+    check_all_pages(mp);
     int r = mcache_sync(mp);
     H4V_CHECK(r == RET_SUCCESS && g_disk[1][0] == g_model[1][0], "a later sync writes the data");
     mcache_close(mp);
